@@ -55,7 +55,10 @@ def check_vc(pc, goal, timeout_ms=None, want_model=True, use_cvc5=True) -> VCRes
     r = s.check()
     dt = time.time() - t0
     if r == z3.unsat:
-        return VCResult("proved", "z3", dt)
+        res = VCResult("proved", "z3", dt)
+        if os.environ.get("PYVC_CROSSCHECK"):
+            res.reason = "cross:" + cross_check(pc, goal)
+        return res
     untrusted = r != z3.unsat and any(f(pc, goal) for f in SAT_UNTRUSTED)
     if r == z3.sat and not untrusted:
         return VCResult("refuted", "z3", dt, model=s.model() if want_model else None)
@@ -91,6 +94,26 @@ def check_vc(pc, goal, timeout_ms=None, want_model=True, use_cvc5=True) -> VCRes
         except Exception as e:  # noqa
             reason += f"; cvc5 fallback failed: {e}"
     return VCResult("unknown", "z3", dt, reason=reason)
+
+
+def cross_check(pc, goal, timeout_s=5.0):
+    """Thorough tier: the same VC on cvc5.  -> 'agree' (unsat) | 'unknown' | 'disagree' (cvc5 sat on a quantifier-free VC)."""
+    try:
+        s = z3.Solver()
+        s.add(*pc)
+        s.add(z3.Not(goal))
+        smt2 = s.to_smt2()
+        smt2 = "\n".join(l for l in smt2.splitlines() if not l.startswith("(check-sat)") and not l.startswith("(set-info") and not l.startswith("; benchmark"))
+        if len(smt2) > 400_000:
+            return "unknown"
+        r = _cvc5(smt2, timeout_s)
+        if r == "unsat":
+            return "agree"
+        if r == "sat" and "forall" not in smt2 and "exists" not in smt2 and "lambda" not in smt2:
+            return "disagree"
+        return "unknown"
+    except Exception:  # noqa
+        return "unknown"
 
 
 def free_consts(exprs):
